@@ -263,6 +263,28 @@ def build():
         return (not bad), (bad[:3] or "header counts are stored only by num_header_rows / num_header_cols, with the caller's value"), n
     plan.ground.append(("header-counts-written-only-by-their-setters", header_counts_written_only_by_their_setters))
 
+    def border_allowance_loads_stored_strokes():
+        """row_border_height / col_border_width (the allowance both header writers subtract and the readers add) must see the document's
+        STORED strokes: those are loaded lazily, by the public Cell.border property or an explicit extract_strokes call; reading the
+        private `_border` record of a freshly opened document finds nothing and the sizes of bordered rows and columns drift on save"""
+        import ast as _ast
+        from pyvc import extract as _ex
+        tree = _ast.parse(open(os.path.join(_ex.SRC, "model.py")).read())
+        bad, n = [], 0
+        for fn in [x for x in _ast.walk(tree) if isinstance(x, _ast.FunctionDef) and x.name in ("row_border_height", "col_border_width")]:
+            n += 1
+            loads = any(isinstance(c, _ast.Call) and _ast.unparse(c.func).endswith("extract_strokes") for c in _ast.walk(fn))
+            private = [a for a in _ast.walk(fn) if isinstance(a, _ast.Attribute) and a.attr == "_border"]
+            public = [a for a in _ast.walk(fn) if isinstance(a, _ast.Attribute) and a.attr == "border"]
+            if private and not loads:
+                bad.append(f"{fn.name} L{private[0].lineno}: reads the private _border record without loading the stored strokes first")
+            elif not public and not private:
+                bad.append(f"{fn.name}: no border is read at all")
+        if n != 2:
+            return False, f"anchor lost: row_border_height / col_border_width ({n} found)", n
+        return (not bad), (bad or "both allowances read borders through the loading property"), n
+    plan.ground.append(("border-allowance-loads-the-stored-strokes", border_allowance_loads_stored_strokes))
+
     plan.bounded.append(BoundedStandIn(
         "geometry-cycles", "c16_geometry.py", [], thorough_args=["--level", "2"], timeout=1500,
         bound="the 40 smallest fixtures (thorough: every fixture) x {geometry queried, nothing queried before saving} x 2 (thorough 3) save/reopen "
